@@ -44,13 +44,8 @@ def main():
                        capture_output=True, text=True, cwd=ROOT)
     results = {}
     for line in r.stdout.splitlines():
-        m = re.match(r"^(C\d\d) rc=(\d+) (\[.*?\]) ?(.*)$", line)
-        if m:
-            try:
-                sigs = eval(m.group(3))
-            except Exception:
-                sigs = [m.group(3)]
-            results[m.group(1)] = {"exit": int(m.group(2)), "signatures": sigs, "note": m.group(4).strip()}
+        if line.startswith("RESULT_JSON:"):
+            results = json.loads(line[len("RESULT_JSON:"):])
     caught = [p for p, v in results.items() if v["exit"] == 1]
     clean = subprocess.run(["git", "-C", "/repo", "status", "--porcelain"], capture_output=True, text=True).stdout.strip() == ""
     meta_path = os.path.join(d, "meta.json")
